@@ -417,6 +417,21 @@ def odd_signature_cases(res):
     seen.append(('tag2', name, other, rest, tuple(sorted(attrs.items()))))
     return (name, other, attrs)
 
+  def _shared_init(self, a, b=R):
+    seen.append(('K.__init__', a, b))
+    self.a, self.b = a, b
+
+  def _shared_new(cls, a, b=R):
+    seen.append(('N.__new__', a, b))
+    o = object.__new__(cls)
+    o.a, o.b = a, b
+    return o
+
+  def mk_alias(kind):
+    # `__init__ = _shared_init`: the constructor is found under a name that is not the function's own __name__
+    ns = {'__init__': _shared_init} if kind == 'init' else {'__new__': _shared_new}
+    return type('Alias_' + kind, (), ns)
+
   def has_marker(x):
     if x is R:
       return True
@@ -431,6 +446,11 @@ def odd_signature_cases(res):
       ('posonly_kwargs_other_name', lambda: tag, {}, lambda f: f('input', colour=R), ['colour']),
       ('posonly_two_kwargs_same_name', lambda: tag2, {}, lambda f: f('input', 'second', other=R), ['other']),
       ('posonly_rest_marker', lambda: tag2, {}, lambda f: f('input', 'second', R), None),
+      ('init_alias_unfilled', lambda: mk_alias('init'), {}, lambda f: f(1), ['b']),
+      ('init_alias_caller_marker', lambda: mk_alias('init'), {}, lambda f: f(1, R), ['b']),
+      ('init_alias_filled', lambda: mk_alias('init'), {'b': 7}, lambda f: f(1), 'FILLED'),
+      ('new_alias_unfilled', lambda: mk_alias('new'), {}, lambda f: f(1), ['b']),
+      ('new_alias_filled', lambda: mk_alias('new'), {'b': 7}, lambda f: f(1, b=R), 'FILLED'),
   ]
   for name, mk, bindings, call, missing in cases:
     desc = ['odd', name]
@@ -438,7 +458,11 @@ def odd_signature_cases(res):
     del seen[:]
     res.case(tuple(desc), True)
     try:
-      cf = gin.external_configurable(mk(), name='c10o_' + name, module='c10')
+      target = mk()
+      if name.startswith(('init_alias', 'new_alias')):
+        cf = gin.configurable('c10o_' + name, module='c10')(target)       # (decorating in place)
+      else:
+        cf = gin.external_configurable(target, name='c10o_' + name, module='c10')
       for p, v in bindings.items():
         gin.bind_parameter('c10.c10o_%s.%s' % (name, p), v)
     except Exception as e:  # pylint: disable=broad-except
@@ -452,6 +476,11 @@ def odd_signature_cases(res):
     if any(has_marker(rec) for rec in seen):
       res.violation('marker_reached_function', '%r: bindings %r: the REQUIRED marker was handed to the function: %r (%s %r)' %
                     (desc, bindings, seen, out, got), desc)
+    elif missing == 'FILLED':
+      if out != 'ok' or [rec[-1] for rec in seen] != [7]:
+        res.violation('call_failed', '%r: REQUIRED default with binding b=7: %s %r, constructor saw %r' % (desc, out, got, seen), desc)
+      else:
+        res.w('odd_calling_conventions')
     elif missing is not None and (out != 'RuntimeError' or not all(("'%s'" % n) in str(got) for n in missing)):
       res.violation('missing_required_names', '%r: expected a clean failure naming %r, got %s %r (calls seen %r)' %
                     (desc, missing, out, got, seen), desc)
